@@ -1616,9 +1616,11 @@ def run(ctx):
     viols = sorted(r["viol"][prop], key=lambda v: len(v["history"]))
     done_known = set()
     kentries = known_entries(prop)
+    ctx.log("shared run done (%d monitor violations for %s); classifying against %d known-finding predicates" % (len(viols), prop, len(kentries)))
     for k in kentries:
         known_batch(mexe, k, [v["history"] for v in viols])
     ctx.cov["monitor_violations_seen"] = len(viols)
+    ctx.log("classification done")
     for v in viols:
         h = v["history"]
         kn = [k for k in kentries if known_match(mexe, k, h)]
@@ -1630,7 +1632,9 @@ def run(ctx):
             continue
         if reported:
             continue
+        ctx.log("shrinking a %d-op history: %s" % (len(h), v["text"][:100]))
         small = shrink(iexe, h, prop, v["text"])
+        ctx.log("shrunk to %d ops" % len(small))
         rc, impl, _ = lib.run_on_text(iexe, "\n".join(small) + "\n")
         rc2, model, _ = lib.run_on_text(mexe, "\n".join(small) + "\n")
         mon = monitor_history(small, impl)
